@@ -95,7 +95,8 @@ def task_const_rename(t):
             case = dict(task=t[:-1] + (fu,), u=U.fmt(fu), d=d)
             try:
                 for how, r in (('let', m.let(dict(d), u)), ('cofactor', m.cofactor(u, dict(d))),
-                               ('rename', m.rename(u, {}) if not d else None)):
+                               ('rename', m.rename(u, {}) if not d else None),
+                               ('compose', m.compose(u, {}) if not d else None)):
                     if r is None:
                         continue
                     rep.add('evaluations')
